@@ -86,7 +86,10 @@ LITERALS = ["Literal['a', 'b']", "Literal[1, 2, 'x']", "Literal[E1.A]", "Literal
             "Literal['a', Literal['b', 1]]", "Optional[Literal['a']]", "List[Literal['a', 1]]", "Dict[str, Literal[E1.A, 2]]"]
 NESTED = ["Union[int, Union[str, H1]]", "Optional[Union[int, H1]]", "List[Union[int, H1]]", "Dict[str, Union[H1, int, None]]",
           "Tuple[Union[int, str], Union[H1, None]]", "Union[List[int], List[H1]]", "Optional[Union[H1, H2]]", "TVC", "List[Union[H1, H2]]",
-          "Optional[Union[int, str]]", "Dict[str, Optional[Union[int, float]]]"]
+          "Optional[Union[int, str]]", "Dict[str, Optional[Union[int, float]]]",
+          # Optional positions whose enclosing position already dealt with None (Optional / union member / defaulted field)
+          "Optional[Tuple[Optional[H1], int]]", "Union[Tuple[Optional[H1], int], List[Optional[H2]]]", "Optional[List[Optional[H1]]]",
+          "Optional[Dict[str, Optional[H1]]]", "Optional[NT2]"]
 NESTED_TAGS = {"Union[int, Union[str, H1]]": "{S+N}", "Optional[Union[int, H1]]": "{S+N}{Z3}", "List[Union[int, H1]]": "{S+N}",
                "Dict[str, Union[H1, int, None]]": "{S+N}{Z3}", "Optional[Union[H1, H2]]": "{Z3}", "TVC": "{S+N}",
                "Optional[Union[int, str]]": "{Z3}", "Dict[str, Optional[Union[int, float]]]": "{Z3}"}
